@@ -1,3 +1,4 @@
+CONSTANT Resolvers <- TResolvers
 CONSTANT Protos <- TProtos
 CONSTANT DirSets <- TDirSets
 CONSTANT Docs <- D2
@@ -5,7 +6,7 @@ CONSTANT MaxEdits = 1000000
 CONSTANT MaxStops = 1000000
 CONSTANT MaxReruns = 1000000
 CONSTANT MaxSteps = 1000000
-CONSTANT MaxVer = 1000000
+CONSTANT MaxVer = 64
 CONSTANT MaxSeq = 1000000
 CONSTANT InitPool <- EmptyPool
 CONSTANT Canon = FALSE
